@@ -152,4 +152,26 @@ theorem cw_sibling_points_interleaved :
     (istep w 10 s (.advance 0 5)).2.1 = [(180, 0), (240, 0)] ∧ (istep w 10 s (.advance 1 5)).2.1 = [(360, 1), (420, 1)] := by
   decide
 
+/-- what a second walk of the caller's `dates` object costs (a check loop in front of the propagation loop, say): a list or a
+`DateRange` survives it, a single-use iterator (generator expression, `iter(list)`, `reversed(list)`, `Ephem.dates`) has nothing
+left for the loop that propagates — the iteration ends at once, without an error. With the one walk of the code (`Generated.datesWalks`)
+both kinds of object yield their dates (`iter_dates_source`, `ephem_iter_dates_source`, `numerical_iter_dates_source`). -/
+theorem second_walk_loses_single_use_dates :
+    let w : World Nat := { kind := .ephem, store := fun i _ => i, sameState := fun _ _ => true, epoch := fun _ => 0, h := 60, order := 2,
+                           pts := [0, 60, 120, 180] }
+    iterRunSrc w 2 10 0 {} (.once [30, 90, 150]) false = ((true, ⟨[], .done⟩), .once []) ∧
+    iterRunSrc w 2 10 0 {} (.again [30, 90, 150]) false = ((true, ⟨[30, 90, 150], .done⟩), .again [30, 90, 150]) ∧
+    iterRunSrc w 1 10 0 {} (.once [30, 90, 150]) false = ((true, ⟨[30, 90, 150], .done⟩), .once []) := by
+  decide
+
+/-- [open finding C08-ephem-own-points-shared-cursor] two iterations over the own points of ONE ephemeris, advanced alternately
+(`zip(e.iter(), e.iter())`; a plain `for orb in e` while a generator of `e.iter()` is suspended; nested plain loops): with the one
+cursor `Ephem.__iter__` keeps on the object each consumer gets every other point and the first one to ask after the end stops early;
+with a cursor per consumer (`iter(self._orbits)`, proposed_fixes/C08-j-ephem-iter-shared-cursor.diff) each gets all the points -/
+theorem ephem_own_points_shared_cursor :
+    let ops := [CurOp.start 0, .pull 0, .start 1, .pull 1, .pull 0, .pull 1, .pull 0, .pull 1]
+    curRun true [0, 60, 120, 180] (fun _ => 0) ops = [(0, some 0), (1, some 0), (0, some 60), (1, some 120), (0, some 180), (1, none)] ∧
+    curRun false [0, 60, 120, 180] (fun _ => 0) ops = [(0, some 0), (1, some 0), (0, some 60), (1, some 60), (0, some 120), (1, some 120)] := by
+  decide
+
 end BeyondVerif.C08W
